@@ -103,8 +103,11 @@ type c42asm struct{ b []byte }
 
 func (a *c42asm) op(o ...byte) *c42asm { a.b = append(a.b, o...); return a }
 func (a *c42asm) push(d []byte) *c42asm {
-	if len(d) == 0 || len(d) > 75 {
+	if len(d) == 0 || len(d) > 255 {
 		panic("c42asm.push: length")
+	}
+	if len(d) > 75 {
+		a.b = append(a.b, 0x4c) // PUSHDATA1
 	}
 	a.b = append(append(a.b, byte(len(d))), d...)
 	return a
@@ -119,6 +122,9 @@ func (a *c42asm) pushInt(n int) *c42asm {
 	return a.op(byte(0x50 + n))
 }
 func (a *c42asm) syscall(name string) *c42asm {
+	if len(name) > 75 {
+		panic("c42asm.syscall: name length")
+	}
 	a.op(0x68)
 	return a.push([]byte(name))
 }
@@ -155,7 +161,7 @@ func c42deployTx(code []byte, name string, nonce uint32) *types.Transaction {
 }
 
 func c42invokeTx(addr common.Address, arg int, gasPrice uint64, nonce uint32) *types.Transaction {
-	return vSignTx(vNeoTx(c42invoke(addr, arg), gasPrice, 200000, nonce), vAcct(0))
+	return vSignTx(vNeoTx(c42invoke(addr, arg), gasPrice, 60000000, nonce), vAcct(0))
 }
 
 // ---------------------------------------------------------------- EVM code
@@ -320,11 +326,11 @@ type c42item struct {
 	msg  *ethtypes.Message // extra message form (EVM items)
 	// may the transaction be put into the follow-up block (it is executable there)?
 	follow bool
+	errs   bool // pre-execution returns an error (aborts a batch)
 }
 
 func c42menu(f *c42fix) []*c42item {
 	a0, a1, a2 := vAcct(0), vAcct(1), vAcct(2)
-	_, e0 := vEthKey(0)
 	_, e1 := vEthKey(1)
 	wc, _, _, _ := c42codes()
 	var it []*c42item
@@ -336,14 +342,14 @@ func c42menu(f *c42fix) []*c42item {
 	add("ont-transfer", "native", vTransferTx(nutils.OntContractAddress, a0, a2.Address, 77, 2500, 20000, 200))
 	add("ong-transfer", "native", vTransferTx(nutils.OngContractAddress, a0, a2.Address, 5000000000, 2500, 20000, 201))
 	// signed by a1, spends a0's: authorization fails
-	add("ont-transfer-foreign-witness", "native", vSignTx(c42transferMut(nutils.OntContractAddress, a0.Address, a2.Address, 9, 202), a1))
+	add("ont-transfer-foreign-witness", "native", vSignTx(c42transferMut(nutils.OntContractAddress, a0.Address, a2.Address, 9, 202), a1)).errs = true
 	add("ont-approve", "native", vSignTx(vNativeTx(nutils.OntContractAddress, "approve",
 		[]interface{}{&c42approve{From: a0.Address, To: a1.Address, Value: 33}}, 0, 20000, 203), a0))
 	add("neovm-storage-put", "neovm", c42invokeTx(f.w, 0, 2500, 210))
 	add("neovm-storage-delete", "neovm", c42invokeTx(f.w, 1, 0, 211))
 	add("neovm-destroy", "neovm", c42invokeTx(f.d, 1, 0, 212))
 	add("neovm-migrate", "neovm", c42invokeTx(f.m, 1, 0, 213))
-	add("neovm-fault", "neovm", vSignTx(vNeoTx([]byte{0x51, 0x00, 0x96 /* DIV by zero */}, 0, 20000, 214), a0))
+	add("neovm-fault", "neovm", vSignTx(vNeoTx([]byte{0x51, 0x00, 0x96 /* DIV by zero */}, 0, 20000, 214), a0)).errs = true
 	add("deploy-new", "deploy", c42deployTx(append(c42write("fresh"), 0x66), "fresh", 220))
 	add("deploy-existing", "deploy", c42deployTx(wc, "w", 221))
 	// EIP-155 (sender e0, next nonce 2)
@@ -351,7 +357,7 @@ func c42menu(f *c42fix) []*c42item {
 	add("evm-create", "evm", c42evmTx(0, 2, nil, 0, c42evmInit(9)))
 	add("evm-call-sstore-log", "evm", c42evmTx(0, 2, &f.evmC, 0, nil))
 	add("evm-call-revert", "evm", c42evmTx(0, 2, &f.evmC, 0, []byte{1}))
-	add("evm-wrong-nonce", "evm", c42evmTx(0, 9, &f.evmC, 0, nil))
+	add("evm-wrong-nonce", "evm", c42evmTx(0, 9, &f.evmC, 0, nil)).follow = false // (a block holding it is not executable)
 	// already committed transactions
 	add("committed-neovm-invoke", "committed", f.committedNeo).follow = false
 	add("committed-evm-call", "committed", f.committedEvm).follow = false
@@ -411,7 +417,7 @@ func c42entries(f *c42fix, menu []*c42item) []*c42entry {
 		return func(l *vLedger, it *c42item) string {
 			txs := []*types.Transaction{it.tx}
 			for _, o := range menu {
-				if o != it {
+				if o != it && !o.errs {
 					txs = append(txs, o.tx)
 				}
 			}
@@ -419,7 +425,13 @@ func c42entries(f *c42fix, menu []*c42item) []*c42entry {
 			if err != nil {
 				return "error(batch aborted)"
 			}
-			return fmt.Sprintf("batch-of-%d", len(rs))
+			ok := 0
+			for _, x := range rs {
+				if x.State == event.CONTRACT_STATE_SUCCESS {
+					ok++
+				}
+			}
+			return fmt.Sprintf("batch-of-%d(%d succeed)", len(rs), ok)
 		}
 	}
 	return []*c42entry{
@@ -545,6 +557,14 @@ func c42view(l *vLedger, f *c42fix, probes []common.Uint256) []string {
 		s, err := ls.GetStorageItem(a, []byte("k"))
 		put(fmt.Sprintf("GetStorageItem(%d,k)", i), string(s), c42e(err))
 	}
+	cdb := ls.GetCacheDB()
+	bal := func(token, a common.Address) string {
+		b, err := nutils.GetNativeTokenBalance(cdb, vBalanceKey(token, a))
+		if err != nil {
+			return "!" + err.Error()
+		}
+		return b.ToBigInt().String()
+	}
 	_, e0 := vEthKey(0)
 	_, e1 := vEthKey(1)
 	for i, a := range []ethcom.Address{e0, e1, f.evmC, ethcrypto.CreateAddress(e0, 2)} {
@@ -561,13 +581,13 @@ func c42view(l *vLedger, f *c42fix, probes []common.Uint256) []string {
 			st, err := ls.GetEthState(a, ethcom.BigToHash(big.NewInt(int64(s))))
 			put(fmt.Sprintf("GetEthState(%d,%d)", i, s), fmt.Sprintf("%x", st), c42e(err))
 		}
-		put(fmt.Sprintf("ong(eth%d)", i), l.Ong(c42ontAddr(a)))
+		put(fmt.Sprintf("ong(eth%d)", i), bal(nutils.OngContractAddress, c42ontAddr(a)))
 	}
 	for i := 0; i < 3; i++ {
-		put(fmt.Sprintf("ont(acct%d)", i), l.Ont(vAcct(i).Address))
-		put(fmt.Sprintf("ong(acct%d)", i), l.Ong(vAcct(i).Address))
+		put(fmt.Sprintf("ont(acct%d)", i), bal(nutils.OntContractAddress, vAcct(i).Address))
+		put(fmt.Sprintf("ong(acct%d)", i), bal(nutils.OngContractAddress, vAcct(i).Address))
 	}
-	put("ong(governance)", l.Ong(nutils.GovernanceContractAddress))
+	put("ong(governance)", bal(nutils.OngContractAddress, nutils.GovernanceContractAddress))
 	return v
 }
 
@@ -586,9 +606,13 @@ func c42viewDiff(a, b []string) string {
 // ---------------------------------------------------------------- the check
 
 type c42case struct {
-	Tx    string `json:"tx"`
-	Entry string `json:"entry"`
-	Reps  int    `json:"reps"`
+	Tx      string `json:"tx"`
+	Entry   string `json:"entry"`
+	Reps    int    `json:"reps"`
+	Restart bool   `json:"restart_before_block"`
+	Then string `json:"then,omitempty"` // pair cases: the second transaction
+	// History (long-lived ledger only): every earlier call "tx|entry" that ledger saw, the failing one last
+	History []string `json:"history,omitempty"`
 }
 
 type c42twin struct {
@@ -610,6 +634,46 @@ func c42makeTwin(f *c42fix, it *c42item) *c42twin {
 	c42must(l.AddBlock(b), "twin follow-up block")
 	root, err := l.ls.GetStateMerkleRoot(b.Header.Height)
 	c42must(err, "twin root")
+	// non-vacuity: committed for real, the attacking items do have the effect the pre-execution must not have
+	if it != nil && it.follow {
+		n, err := l.ls.GetEventNotifyByTx(it.tx.Hash())
+		c42must(err, "twin event of "+it.name)
+		bad := ""
+		switch it.name {
+		case "neovm-destroy":
+			if c, _ := l.ls.GetContractState(f.d); c != nil || n.State != event.CONTRACT_STATE_SUCCESS {
+				bad = "contract d still exists"
+			}
+		case "neovm-migrate":
+			c, _ := l.ls.GetContractState(f.mnew)
+			v, _ := l.ls.GetStorageItem(f.mnew, []byte("k"))
+			if c == nil || string(v) != "m" || n.State != event.CONTRACT_STATE_SUCCESS {
+				bad = fmt.Sprintf("migration target missing or without storage (k=%q) state=%d contract=%v", v, n.State, c != nil)
+			}
+		case "evm-create":
+			_, e0 := vEthKey(0)
+			acc, _ := l.ls.GetEthAccount(ethcrypto.CreateAddress(e0, 2))
+			if acc == nil || acc.CodeHash == (ethcom.Hash{}) || n.State != event.CONTRACT_STATE_SUCCESS {
+				bad = "created EVM contract has no code"
+			}
+		case "evm-call-sstore-log":
+			v, _ := l.ls.GetEthState(f.evmC, ethcom.Hash{})
+			if new(big.Int).SetBytes(v).Int64() != 3 || len(n.Notify) == 0 { // setup 1, item 2, fixed follow-up call 3
+				bad = fmt.Sprintf("slot0=%x, %d logs", v, len(n.Notify))
+			}
+		case "evm-call-revert":
+			if n.State == event.CONTRACT_STATE_SUCCESS {
+				bad = "reverting call succeeded"
+			}
+		case "ont-transfer", "ong-transfer", "ont-approve", "neovm-storage-put", "neovm-storage-delete", "deploy-new", "evm-transfer":
+			if n.State != event.CONTRACT_STATE_SUCCESS {
+				bad = "fails when committed"
+			}
+		}
+		if bad != "" {
+			panic("c42 fixture: item " + it.name + " committed in a block: " + bad)
+		}
+	}
 	return &c42twin{block: b, dump: l.Dump(), root: root}
 }
 
@@ -617,7 +681,7 @@ func TestVerif_C42(t *testing.T) {
 	r := vh.Start(t, "C42", "preexec")
 	defer r.Finish()
 	r.Rule("cases = transaction of the menu {native transfer/approve (valid, foreign witness), NeoVM invoke that writes / deletes storage / destroys / migrates / faults, deploy (new, existing), EIP-155 transfer / create / SSTORE+LOG call / reverting call / wrong nonce, already committed NeoVM and EVM transactions} x read-only entry point x issued 1..3 times in a row on one ledger; evaluations = pre-execution calls, each followed by the full comparison; outcome class = tx kind : entry point : result")
-	r.Bound("ledger of 3 blocks (3 NeoVM contracts and 1 EVM contract with storage, funded native and EVM accounts); 18 transactions; 10 entry-point forms (6 general, 4 EIP-155 only); repetitions 1..3; one follow-up block per case compared with a twin ledger; plus one ledger that sees every call of the run in sequence")
+	r.Bound("ledger of 3 blocks (3 NeoVM contracts and 1 EVM contract with storage, funded native and EVM accounts); 18 transactions; 10 entry-point forms (6 general, 4 EIP-155 only); repetitions 1..3; then {no restart, restart} (quick tier: alternating, thorough: both) and one follow-up block per case compared with a twin ledger; plus one ledger that sees every call of the run in sequence; thorough tier additionally every ordered pair (a,b) of menu transactions: a, b, then the batch [a,b] on one ledger")
 	r.Assume("block time / context passed by the RPC layer is irrelevant to persistence; WASM contracts are outside the menu (the JIT is a stub)")
 
 	var rc c42case
@@ -656,13 +720,15 @@ func TestVerif_C42(t *testing.T) {
 	take := func(l *vLedger) *snap { return &snap{l.Dump(), c42view(l, f, probes), c42gasTable()} }
 	check := func(l *vLedger, before *snap, cs c42case, it *c42item, en *c42entry, rep int) bool {
 		after := take(l)
-		key := it.name + ":" + en.name
+		key := c42key(it, en)
+		if cs.History != nil {
+			key += "(after-earlier-calls)"
+		}
 		ok := true
 		if d := vDiff(before.dump, after.dump); len(d) != 0 {
 			r.Violationf(key+":store-changed", cs, "%v call %d: persisted state changed:%s", cs, rep, vHexKeys(d))
 			ok = false
-		}
-		if d := c42viewDiff(before.view, after.view); d != "" {
+		} else if d := c42viewDiff(before.view, after.view); d != "" {
 			r.Violationf(key+":view-changed", cs, "%v call %d: a query answers differently after the pre-execution: %s", cs, rep, d)
 			ok = false
 		}
@@ -675,77 +741,206 @@ func TestVerif_C42(t *testing.T) {
 
 	idx := 0
 	sampled := 0
+	find := func(tx, entry string) (*c42item, *c42entry) {
+		var it *c42item
+		var en *c42entry
+		for _, x := range menu {
+			if x.name == tx {
+				it = x
+			}
+		}
+		for _, x := range entries {
+			if x.name == entry {
+				en = x
+			}
+		}
+		return it, en
+	}
 	// one ledger that sees every pre-execution of this shard in sequence
 	long := f.open()
 	defer func() { c42drop(long) }()
 	longStart := take(long)
+	var history []string
+	longFailed := map[string]bool{}
+	longCall := func(it *c42item, en *c42entry) {
+		history = append(history, it.name+"|"+en.name)
+		lb := take(long)
+		if pn := vh.Catch(func() { en.call(long, it) }); pn != "" {
+			return // (reported by the fresh-ledger case)
+		}
+		r.Eval(1)
+		if longFailed[c42key(it, en)] {
+			return
+		}
+		cs := c42case{Tx: it.name, Entry: en.name, Reps: 1, History: append([]string(nil), history...)}
+		if !check(long, lb, cs, it, en, len(history)) {
+			longFailed[c42key(it, en)] = true
+			c42drop(long)
+			long = f.open()
+			longStart = take(long)
+			history = nil
+		}
+	}
+	if replay && rc.History != nil {
+		for _, h := range rc.History {
+			p := strings.SplitN(h, "|", 2)
+			it, en := find(p[0], p[1])
+			r.Need(it != nil && en != nil, "replay: unknown call %q", h)
+			longCall(it, en)
+		}
+		return
+	}
 	for _, it := range menu {
 		for _, en := range entries {
 			if en.evm && !it.tx.IsEipTx() {
 				continue
 			}
 			idx++
-			cs := c42case{Tx: it.name, Entry: en.name, Reps: 3}
-			if replay {
-				if rc.Tx != cs.Tx || rc.Entry != cs.Entry {
+			for _, restart := range []bool{false, true} {
+				if r.Quick() && restart != (idx%2 == 0) {
+					continue // quick tier: one of the two variants per case, alternating
+				}
+				cs := c42case{Tx: it.name, Entry: en.name, Reps: 3, Restart: restart}
+				if replay {
+					if rc.Tx != cs.Tx || rc.Entry != cs.Entry || rc.Restart != cs.Restart {
+						continue
+					}
+				} else if !r.Mine(idx) {
 					continue
 				}
-			} else if !r.Mine(idx) {
-				continue
-			}
-			if r.Expired() {
-				break
-			}
-			l := f.open()
-			clean := true
-			for rep := 1; rep <= 3 && clean; rep++ {
-				before := take(l)
-				var res string
-				if pn := vh.Catch(func() { res = en.call(l, it) }); pn != "" {
-					r.Violationf(it.name+":"+en.name+":panic", cs, "%v call %d panicked: %s", cs, rep, pn)
-					clean = false
+				if r.Expired() {
 					break
 				}
-				r.Eval(1)
-				r.Class(it.kind + ":" + en.name + ":" + res)
-				if rep == 1 && sampled < 6 && idx%7 == 0 {
-					sampled++
-					r.Sample(map[string]interface{}{"tx": it.name, "entry": en.name, "result": res})
-				}
-				clean = check(l, before, cs, it, en, rep)
-				// the same call on the long-lived ledger
-				lb := take(long)
-				if pn := vh.Catch(func() { en.call(long, it) }); pn == "" {
+				l := f.open()
+				start := take(l)
+				clean := true
+				for rep := 1; rep <= 3 && clean; rep++ {
+					before := take(l)
+					var res string
+					if pn := vh.Catch(func() { res = en.call(l, it) }); pn != "" {
+						r.Violationf(c42key(it, en)+":panic", cs, "%v call %d panicked: %s", cs, rep, pn)
+						clean = false
+						break
+					}
 					r.Eval(1)
-					if !check(long, lb, c42case{Tx: it.name, Entry: en.name + " (ledger that saw all earlier calls)", Reps: rep}, it, en, rep) {
-						c42drop(long)
-						long = f.open()
+					r.Class(it.kind + ":" + en.name + ":" + res)
+					if rep == 1 && sampled < 2 {
+						sampled++
+						r.Sample(map[string]interface{}{"tx": it.name, "entry": en.name, "result": res})
+					}
+					clean = check(l, before, cs, it, en, rep)
+					if !replay {
+						longCall(it, en)
 					}
 				}
-			}
-			if clean {
-				tw := twinOf(it)
-				err := l.AddBlock(c42cloneBlock(tw.block))
-				root, rerr := l.ls.GetStateMerkleRoot(tw.block.Header.Height)
-				if err != nil || rerr != nil || root != tw.root {
-					r.Violationf(it.name+":"+en.name+":later-block-differs", cs, "%v: block committed after the pre-executions: err=%v state root %s, twin %s", cs, err, root.ToHexString(), tw.root.ToHexString())
-				} else if d := vDiff(l.Dump(), tw.dump); len(d) != 0 {
-					r.Violationf(it.name+":"+en.name+":later-block-differs", cs, "%v: after a block committed afterwards the stores differ from a ledger without pre-executions:%s", cs, vHexKeys(d))
+				if clean && restart {
+					if err := l.Reopen(); err != nil {
+						r.Violationf(c42key(it, en)+":restart-fails", cs, "%v: the ledger does not reopen after the pre-executions: %v", cs, err)
+						clean = false
+					} else if d := vDiff(start.dump, l.Dump()); len(d) != 0 {
+						r.Violationf(c42key(it, en)+":store-changed-after-restart", cs, "%v: after a restart the stores differ from before the pre-executions:%s", cs, vHexKeys(d))
+						clean = false
+					} else if d := c42viewDiff(start.view, c42view(l, f, probes)); d != "" {
+						r.Violationf(c42key(it, en)+":view-changed-after-restart", cs, "%v: after a restart a query answers differently: %s", cs, d)
+						clean = false
+					}
 				}
+				if clean {
+					tw := twinOf(it)
+					err := l.AddBlock(c42cloneBlock(tw.block))
+					root, rerr := l.ls.GetStateMerkleRoot(tw.block.Header.Height)
+					if err != nil || rerr != nil || root != tw.root {
+						r.Violationf(c42key(it, en)+":later-block-differs", cs, "%v: block committed after the pre-executions: err=%v state root %s, twin %s", cs, err, root.ToHexString(), tw.root.ToHexString())
+					} else if d := vDiff(l.Dump(), tw.dump); len(d) != 0 {
+						r.Violationf(c42key(it, en)+":later-block-differs", cs, "%v: after a block committed afterwards the stores differ from a ledger without pre-executions:%s", cs, vHexKeys(d))
+					}
+				}
+				c42drop(l)
 			}
-			c42drop(l)
+		}
+	}
+	// thorough tier: every ordered pair of menu transactions on one fresh ledger —
+	// a alone, b alone, then both in one two-element batch — then the follow-up block
+	if r.Thorough() || (replay && rc.Then != "") {
+		var single, batchA, batchN *c42entry
+		for _, en := range entries {
+			switch en.name {
+			case "PreExecuteContract":
+				single = en
+			case "PreExecuteContractBatch(atomic)":
+				batchA = en
+			case "PreExecuteContractBatch(non-atomic)":
+				batchN = en
+			}
+		}
+		for ai, a := range menu {
+			for bi, b := range menu {
+				if a == b {
+					continue
+				}
+				idx++
+				cs := c42case{Tx: a.name, Entry: "pair", Then: b.name, Reps: 1}
+				if replay {
+					if rc.Tx != cs.Tx || rc.Then != cs.Then || rc.Entry != "pair" {
+						continue
+					}
+				} else if !r.Mine(idx) {
+					continue
+				}
+				if r.Expired() {
+					break
+				}
+				l := f.open()
+				clean := true
+				step := func(it *c42item, en *c42entry, n int, call func() string) {
+					if !clean {
+						return
+					}
+					before := take(l)
+					var res string
+					if pn := vh.Catch(func() { res = call() }); pn != "" {
+						r.Violationf(c42key(it, en)+":panic", cs, "%v step %d panicked: %s", cs, n, pn)
+						clean = false
+						return
+					}
+					r.Eval(1)
+					r.Class("pair:" + en.name + ":" + res)
+					clean = check(l, before, cs, it, en, n)
+				}
+				step(a, single, 1, func() string { return single.call(l, a) })
+				step(b, single, 2, func() string { return single.call(l, b) })
+				ben := batchA
+				if (ai+bi)%2 == 1 {
+					ben = batchN
+				}
+				step(b, ben, 3, func() string {
+					rs, _, err := l.ls.PreExecuteContractBatch([]*types.Transaction{a.tx, b.tx}, ben == batchA)
+					if err != nil {
+						return "error"
+					}
+					return fmt.Sprintf("batch-of-%d", len(rs))
+				})
+				if clean {
+					tw := twinOf(a)
+					err := l.AddBlock(c42cloneBlock(tw.block))
+					if d := vDiff(l.Dump(), tw.dump); err != nil || len(d) != 0 {
+						r.Violationf(c42key(a, single)+":later-block-differs", cs, "%v: block committed after the pre-executions: err=%v, stores differ from the twin:%s", cs, err, vHexKeys(d))
+					}
+				}
+				c42drop(l)
+			}
 		}
 	}
 	// the long-lived ledger: nothing accumulated, and it still commits like the twin
 	if !replay {
 		end := take(long)
 		if d := vDiff(longStart.dump, end.dump); len(d) != 0 {
-			r.Violationf("sequence:all-calls:store-changed", nil, "after all pre-executions of the run the stores differ:%s", vHexKeys(d))
+			r.Violationf("sequence:all-calls:store-changed", c42case{History: history}, "after all pre-executions of the run the stores differ:%s", vHexKeys(d))
 		}
 		tw := twinOf(menu[len(menu)-1])
 		err := long.AddBlock(c42cloneBlock(tw.block))
 		if d := vDiff(long.Dump(), tw.dump); err != nil || len(d) != 0 {
-			r.Violationf("sequence:all-calls:later-block-differs", nil, "block committed after all pre-executions: err=%v, stores differ from the twin:%s", err, vHexKeys(d))
+			r.Violationf("sequence:all-calls:later-block-differs", c42case{History: history}, "block committed after all pre-executions: err=%v, stores differ from the twin:%s", err, vHexKeys(d))
 		}
 	}
 	if r.R.NShards == 1 && !replay {
@@ -754,6 +949,22 @@ func TestVerif_C42(t *testing.T) {
 		r.NeedClass("evm:PreExecuteEip155Tx:success")
 	}
 	r.Need(replay || r.R.Evaluations > 0 || r.R.CapHit, "no case evaluated")
+}
+
+// c42key: violation class = entry function : VM the transaction runs on
+func c42key(it *c42item, en *c42entry) string {
+	vm := it.kind
+	if vm == "committed" {
+		vm = "neovm"
+	}
+	if it.tx.IsEipTx() {
+		vm = "evm"
+	}
+	fn := en.name
+	if i := strings.IndexByte(fn, '('); i >= 0 {
+		fn = fn[:i]
+	}
+	return fn + ":" + vm
 }
 
 func c42short(a, b string) string {
